@@ -39,7 +39,7 @@ fn worker_baseline_inner(_args: &[String]) -> i32 {
 }
 
 fn baseline(text: &str) -> Result<BTreeMap<&'static str, Option<Lines>>, String> {
-    let exe = std::env::current_exe().map_err(|e| e.to_string())?;
+    let exe = std::path::PathBuf::from("/proc/self/exe"); // the running image itself, even if the file on disk has been rebuilt meanwhile
     let mut child = std::process::Command::new(exe)
         .args(["worker", "baseline"])
         .stdin(std::process::Stdio::piped())
